@@ -60,17 +60,22 @@ def make_hybrid(case):
     eq, radial = guarded(bhe_and_radial, bc, what="borehole/radial model construction")
     hourly = gl.expand(case["loads"])
     sim = SimulationParameters(1, case["months"], 35.0, 5.0, 200.0, 60.0)
+    kw = {}
+    if case.get("leap"):
+        # a leap load year: 8784 values (29 February = a copy of the day before it), years=[2020]
+        hourly = hourly[:1416] + hourly[1392:1416] + hourly[1416:]
+        kw["years"] = [2020]
     with warnings.catch_warnings():
         warnings.simplefilter("ignore")
-        hl = guarded(HybridLoad, hourly, eq, radial, sim, what="HybridLoad()")
+        hl = guarded(HybridLoad, hourly, eq, radial, sim, what="HybridLoad()", **kw)
     return hl, hourly, eq, radial
 
 
-def month_stats(hourly):
-    """independent per-calendar-month statistics of the 8760 W profile (kW / kWh, O1 calendar)"""
+def month_stats(hourly, leap=False):
+    """independent per-calendar-month statistics of the 8760 (8784) W profile (kW / kWh, O1 calendar)"""
     out = [None]
     for m in range(1, 13):
-        a, b = gl.month_start_hour(m), gl.month_end_hour(m)
+        a, b = gl.month_start_hour(m, leap), gl.month_end_hour(m, leap)
         seg = hourly[a:b]
         rej = [(-x / 1000.0 if x < 0.0 else 0.0) for x in seg]
         ext = [(x / 1000.0 if x >= 0.0 else 0.0) for x in seg]
@@ -91,7 +96,7 @@ def cal_month(m: int) -> int:
 
 
 @st.composite
-def hybrid_case(draw, full_bhe=False, months=None):
+def hybrid_case(draw, full_bhe=False, months=None, leap_ok=False):
     spec = draw(gl.load_spec())
     if full_bhe and draw(st.integers(0, 2)) > 0:
         bhe = draw(gp.bhe_case(kind="SINGLEUTUBE"))
@@ -101,10 +106,13 @@ def hybrid_case(draw, full_bhe=False, months=None):
         n = draw(st.one_of(st.integers(1, 360), st.sampled_from([1, 11, 12, 13, 24, 25, 36, 120, 240, 359, 360])))
     else:
         n = draw(months)
-    return {"loads": spec, "bhe": bhe, "months": n}
+    c = {"loads": spec, "bhe": bhe, "months": n}
+    if leap_ok and draw(st.integers(0, 5)) == 0:
+        c["leap"] = True
+    return c
 
 
-def month_slices(hl, n_months):
+def month_slices(hl, n_months, leap=False):
     """for each simulated month m=1..n: (i0, i1) so that breakpoints i0+1..i1 belong to month m,
     hour[i0] being the previous month end (index 1 for the first month) and hour[i1] this month's end.
     Returns None for a month whose end breakpoint is missing."""
@@ -112,7 +120,7 @@ def month_slices(hl, n_months):
     res = []
     i0 = 1
     for m in range(1, n_months + 1):
-        end = gl.month_end_hour(m)
+        end = gl.month_end_hour(m, leap)
         j = None
         for k in range(i0 + 1, len(hour)):
             if hour[k] == end:
